@@ -59,6 +59,10 @@ def replay_file(ctx, rec):
         r = nd.replay_buf(d["extra"], d["path"], d["divergence"].get("variant", 0), None)
         print("replay:", "diverges " + framework.jdump(r) if r else "follows the specification")
         return 1 if r else 0
+    if "path" in d and (d.get("divergence") or {}).get("sig", {}).get("module") == "Connector":
+        r = nd.replay_conn(d["extra"], d["path"], None, None)
+        print("replay:", "diverges " + framework.jdump(r) if r else "follows the specification")
+        return 1 if r else 0
     if "path" in d:
         v = (d.get("divergence") or {}).get("variant") or nd.VARIANTS[0]
         r = nd.replay_stream(d["extra"], d["path"], v, None)
@@ -224,4 +228,79 @@ def c2s_stream(ctx, mode, n, length=None):
     t0 = time.time()
     ctx.validate("net", "Trace_IOStreamContract", "Trace_IOStreamContract.cfg", traces, sig_fn=trace_sig)
     ctx._phase("validate:" + mode, t0)
+    return traces
+
+
+# ----------------------------------------------------------------------------- connector (C10)
+
+def _conn_replayer(extra, path):
+    return nd.replay_conn(extra, path, None, _INDEX)
+
+
+def s2c_connector(ctx, gen_cfg, overrides, label="s2c"):
+    global _INDEX
+    t0 = time.time()
+    paths = nd.graph_paths(ctx, "net", "GenG_Connector", gen_cfg, overrides=overrides)
+    ctx._phase("gen:" + gen_cfg, t0)
+    t0 = time.time()
+    _INDEX = nd.BranchIndex(paths)
+    ctx.replay(paths, _conn_replayer, label=label, nontrivial=lambda e, p: len(p) >= 2)
+    ctx._phase("replay:" + gen_cfg, t0)
+    return paths
+
+
+def random_connector_trace(job):
+    tid, seed, length, create_modes = job
+    rng = random.Random(seed)
+    n = rng.choice([1, 2, 3, 5, 6, 7, 8])
+    fam = [rng.choice([4, 6]) for _ in range(n)]
+    if rng.random() < 0.15:
+        fam = [fam[0]] * n
+    modes = ["async", "async", "async", "sync"] + (["sockerr", "streamerr"] if create_modes else [])
+    cfg = {"fam": fam, "mode": [rng.choice(modes) for _ in range(n)], "ct": rng.choice([0, 0, 1, 2, 2])}
+    real = nd.ConnectorReal(cfg)
+    ev = []
+    complete = 0
+    try:
+        obs, _ = real.step("start", [])
+        ev.append({"a": "start", "args": [], "obs": obs})
+        for _ in range(length):
+            infl = [i + 1 for i, s in enumerate(obs["sock"]) if s == "connecting" and (i + 1) in real.streams]
+            pending = obs["res"] == ["pending"]
+            acts = []
+            for a in infl:
+                acts += [("succeed", [a])] + [("fail", [a])] * 3
+            if len(infl) == 2:
+                a, b = rng.sample(infl, 2)
+                acts += [("pair", [a, rng.choice(["ok", "fail"]), b, rng.choice(["ok", "fail"])])] * 2
+            d = real.env.loop.next_deadline()
+            if pending and d is not None:
+                if abs(d - (real.t0 + real.HE)) < 1e-9:
+                    acts += [("he", [])] * 2
+                elif cfg["ct"] and abs(d - (real.t0 + real.CT[cfg["ct"]])) < 1e-9:
+                    acts += [("ct", [])]
+            if not acts:
+                complete = 1
+                break
+            a, args = rng.choice(acts)
+            obs, _ = real.step(a, args)
+            ev.append({"a": a, "args": args, "obs": obs})
+        return {"id": tid, "cfg": cfg, "complete": complete, "ev": ev}
+    finally:
+        real.close()
+
+
+def conn_trace_sig(t, bad, l):
+    return {"create_failure": any(m in ("sockerr", "streamerr") for m in t["cfg"]["mode"]),
+            "modes": sorted(set(t["cfg"]["mode"]))}
+
+
+def c2s_connector(ctx, n, create_modes=False, label="c2s"):
+    jobs = [(i + 1, ctx.seed * 1000003 + i * 104729 + (17 if create_modes else 5), 30, create_modes) for i in range(n)]
+    t0 = time.time()
+    traces = framework.pool_map(random_connector_trace, jobs)
+    ctx._phase("record:connector", t0)
+    t0 = time.time()
+    ctx.validate("net", "Trace_Connector", "Trace_Connector.cfg", traces, sig_fn=conn_trace_sig, label=label)
+    ctx._phase("validate:connector", t0)
     return traces
